@@ -19,7 +19,10 @@ class InjectedAbort(BaseException):
     """what Ctrl-C inside the user's function looks like (not an Exception)"""
 
 
-FAULT_CLASSES = {"raise": InjectedFault, "abort": InjectedAbort}
+# "runtime" / "value" / "fpe": what a domain check inside the user's function raises (the classes a library might be
+# tempted to absorb); used by checks that ask "does the call survive the failure, and if so is it still right"
+FAULT_CLASSES = {"raise": InjectedFault, "abort": InjectedAbort, "runtime": RuntimeError, "value": ValueError,
+                 "fpe": FloatingPointError}
 
 
 class Sim:
@@ -75,30 +78,57 @@ class Sim:
 SIM = Sim()
 
 
-class FaultyLinalgSolve(object):
-    """a usually-successful internal call fails once: the k-th torch.linalg.solve raises what LAPACK raises for a
-    singular system; later calls go through.  Installed by a check for the duration of one call."""
+LAPACK_TARGETS = ("solve", "cholesky", "eigh", "qr", "inverse")
 
-    def __init__(self, k):
+
+class FaultyLinalgSolve(object):
+    """a usually-successful internal call fails once: the k-th call of a dense LAPACK entry point (torch.linalg.solve /
+    cholesky / eigh / qr, torch.inverse - one shared counter) raises what LAPACK raises for a singular or
+    non-positive-definite matrix; later calls go through.  Installed by a check for the duration of one call or one
+    execution (``with FaultyLinalgSolve(k): ...``)."""
+
+    def __init__(self, k, targets=LAPACK_TARGETS):
         import torch
         self.k = k
         self.n = 0
         self.fired = 0
-        self.orig = torch.linalg.solve
+        self.fired_in = None
+        self.targets = tuple(targets)
+        self.origs = {}
+        for t in self.targets:
+            self.origs[t] = torch.inverse if t == "inverse" else getattr(torch.linalg, t)
+        self.orig = self.origs.get("solve", torch.linalg.solve)
 
     def __call__(self, *a, **kw):
         import torch
+        target = kw.pop("_xsim_target", "solve")
         self.n += 1
         if self.n == self.k:
             self.fired += 1
-            raise torch._C._LinAlgError("injected: linalg.solve: The solver failed because the input matrix is singular.")
-        return self.orig(*a, **kw)
+            self.fired_in = target
+            raise torch._C._LinAlgError("injected: linalg.%s: The factorization could not be completed because the "
+                                        "input is singular / not positive-definite." % target)
+        return self.origs[target](*a, **kw)
+
+    def _wrapper(self, target):
+        def call(*a, **kw):
+            kw["_xsim_target"] = target
+            return self(*a, **kw)
+        return call
 
     def __enter__(self):
         import torch
-        torch.linalg.solve = self
+        for t in self.targets:
+            if t == "inverse":
+                torch.inverse = self._wrapper(t)
+            else:
+                setattr(torch.linalg, t, self._wrapper(t))
         return self
 
     def __exit__(self, *a):
         import torch
-        torch.linalg.solve = self.orig
+        for t in self.targets:
+            if t == "inverse":
+                torch.inverse = self.origs[t]
+            else:
+                setattr(torch.linalg, t, self.origs[t])
